@@ -731,6 +731,124 @@ class C01(Check):
                     break
                 n_cfg += 1
         self.extra_cov["live_reconfiguration_probes"] = {"attributes": attrs, "assignments": n_cfg}
+        # 8. RE-ENTRANT tools: a registered tool whose body goes back into the same engine (another tool through an
+        #    expression, a structured call, the legacy string API, two levels deep), from the expression path and from the
+        #    structured path.  Every call returns (under a watchdog) a result object.
+        n_re = 0
+        for inner in ("expr-tool", "expr-math", "call", "digest", "two-levels", "same-tool-once"):
+            for outer in ("expr", "call", "agent-style"):
+                box = {}
+
+                def scenario(inner=inner, outer=outer, box=box):
+                    m = Mitochondria(silent=True, timeout_seconds=0.5)
+                    depth = [0]
+                    m.engulf_tool(SimpleTool(name="double", description="", func=lambda x=1, *a, **k: 2 * x))
+
+                    def quad(x=1, *a, **k):
+                        depth[0] += 1
+                        try:
+                            if inner == "expr-tool":
+                                r = m.metabolize(f"double({x})")
+                            elif inner == "expr-math":
+                                r = m.metabolize(f"{x} * 2")
+                            elif inner == "call":
+                                r = m.execute_tool_call(ToolCall(id="i", name="double", arguments={"x": x}))
+                            elif inner == "digest":
+                                return m.digest_glucose(f"{x} * 2")
+                            elif inner == "two-levels":
+                                r = m.metabolize(f"mid({x})")
+                            else:
+                                r = m.metabolize("1 + 1") if depth[0] > 1 else m.metabolize(f"quad({x})")
+                            return getattr(getattr(r, "atp", None), "value", None) if hasattr(r, "atp") else getattr(r, "output", None)
+                        finally:
+                            depth[0] -= 1
+                    m.engulf_tool(SimpleTool(name="quad", description="", func=quad))
+                    m.engulf_tool(SimpleTool(name="mid", description="",
+                                             func=lambda x=1, *a, **k: m.metabolize(f"double({x})").success))
+                    if outer == "expr":
+                        box["r"] = m.metabolize("quad(3)")
+                    elif outer == "call":
+                        box["r"] = m.execute_tool_call(ToolCall(id="o", name="quad", arguments={"x": 3}))
+                    else:
+                        box["r"] = m.digest_glucose("quad(3)")
+                    m.metabolize("1 + 1")
+                try:
+                    common.call_with_watchdog(scenario, 6.0)
+                    ok = "r" in box
+                    why = "did not produce a result"
+                except common.Hang:
+                    ok, why = False, "had not returned after 6 s (timeout_seconds=0.5)"
+                except BaseException as ex:  # noqa
+                    ok, why = False, f"raised {type(ex).__name__}: {str(ex)[:80]}"
+                n_re += 1
+                if not ok:
+                    self.violations.append(Violation(
+                        "C01/hang" if "returned" in why else "C01/raises",
+                        f"a registered tool whose body goes back into the same engine ({inner}), requested through "
+                        f"'{outer}': the call {why}",
+                        case={"reentrant_tool_probe": [inner, outer], "expr": "quad(3)", "pathway": None, "tools": [],
+                              "allowed": None, "silent": True}))
+                    break
+            else:
+                continue
+            break
+        self.extra_cov["reentrant_tool_probes"] = n_re
+        # 9. the CLOCK the engine reads misbehaves (stands still, steps back an hour / ten years, jumps ahead) between and
+        #    inside calls, after a handled failure, for every numeric option the constructor offers beyond the documented
+        #    ones (each tried at a few small values): never raises
+        import inspect
+        import operon_ai.organelles.mitochondria as MM
+        n_clk = 0
+        sig = inspect.signature(Mitochondria.__init__)
+        known = {"self", "timeout_seconds", "max_ros", "tools", "allowed_capabilities", "silent"}
+        extra_opts = [n for n, prm in sig.parameters.items()
+                      if n not in known and prm.default is None and any(t in str(prm.annotation) for t in ("float", "int"))]
+        configs = [{}] + [{n: v} for n in extra_opts for v in (0.001, 1.0, 3.5, 1e9)]
+        real_time = MM.time
+
+        class _Clock:
+            def __init__(self, script):
+                self.t, self.script, self.k = 1_700_000_000.0, script, 0
+
+            def time(self):
+                d = self.script[self.k % len(self.script)]
+                self.k += 1
+                self.t += d
+                return self.t
+
+            def __getattr__(self, name):
+                return getattr(real_time, name)
+        scripts = [[0.0], [-3600.0], [1e-9, -1e-9], [0.0, 0.0, -315360000.0, 0.0], [86400.0 * 365 * 50], [0.5, -7200.0, 0.0]]
+        for cfg in configs:
+            for script in scripts:
+                step = "construct"
+                try:
+                    MM.time = _Clock(script)
+                    with contextlib.redirect_stdout(io.StringIO()):
+                        m = Mitochondria(silent=True, **cfg)
+                        for e in ("1 / 0", "2 + 2", "1 +", "2 + 2", "sqrt(-1)", "2 ** 10", "1 < 2"):
+                            step = f"metabolize({e!r})"
+                            r = m.metabolize(e)
+                            if not hasattr(r, "success"):
+                                raise TypeError("not a result object")
+                        step = "digest_glucose"
+                        m.digest_glucose("2 * 3")
+                        m.get_statistics()
+                except BaseException as ex:  # noqa
+                    self.violations.append(Violation(
+                        "C01/raises", f"engine({cfg}) with a clock advancing by {script} per reading: {step} raised "
+                        f"{type(ex).__name__}: {str(ex)[:80]}",
+                        case={"clock_probe": script, "options": {k: repr(v) for k, v in cfg.items()}, "expr": "2 + 2",
+                              "pathway": None, "tools": [], "allowed": None, "silent": True}))
+                    MM.time = real_time
+                    break
+                finally:
+                    MM.time = real_time
+                n_clk += 1
+            else:
+                continue
+            break
+        self.extra_cov["clock_probes"] = {"runs": n_clk, "extra_numeric_options": extra_opts}
 
     def shrink(self, case, pred):
         return case
